@@ -55,7 +55,7 @@ def run(ctx):
             op, impl = l.split("\t", 1)
             w = op.split(" ")
             if w[0] in ("mux", "tconn") and len(w) > 2:
-                evs = [w[0] + "." + (e[0] + (e[e.rfind(":"):] if e[0] in "FDL" else "")) for e in w[2].split(",") if e and e != "-"]
+                evs = [w[0] + "." + (e[0] + (e[e.rfind(":"):] if (e[0] in "FD" or (w[0] == "tconn" and e[0] == "L")) else "")) for e in w[2].split(",") if e and e != "-"]
                 for e in evs:
                     kinds[e] = kinds.get(e, 0) + 1
                 bigrams.update(zip(evs, evs[1:]))
